@@ -8,7 +8,7 @@ for d in seeded/*/; do
   prop=$(/venv/bin/python -c "import json;print(json.load(open('$d/meta.json'))['property'])")
   scr=$(mktemp -d /tmp/seedchk.XXXXXX); rmdir $scr
   git -C /repo worktree add -q --detach $scr HEAD
-  if git -C $scr apply $d/patch.diff 2>/dev/null; then
+  if git -C $scr apply /verif/$d/patch.diff 2>/dev/null; then
     out=$(VERIF_REPO=$scr VERIF_STOP_ON_VIOLATION=1 VERIF_NO_EVIDENCE=1 VERIF_MIN_BUDGET=10 timeout 3000 /venv/bin/python check.py $prop --tier quick 2>&1); rc=$?
     for f in $(echo "$out" | grep '^VIOLATION' | sed 's/.*replay=//'); do rm -f $f; done
     if [ $rc -eq 1 ]; then echo "$id $prop caught"; else echo "$id $prop MISSED rc=$rc"; fi
